@@ -263,6 +263,7 @@ let rec parse_op toks : zop =
   | ["tryreserve"; r; n] | ["tryreservex"; r; n] -> OTryReserve (nat_s r, n_of_string n)
   | ["shrink"; r] -> OShrink (nat_s r)
   | ["capacity"; r] -> OCapacity (nat_s r)
+  | ["debug"; r] -> ODebug (nat_s r)
   | "fuse" :: k :: rest -> OFuse (nat_s k, parse_op rest)
   | _ -> raise (Bad (String.concat " " toks))
 
